@@ -18,8 +18,16 @@ import (
 // after it fired and waited for again; N = AfterFunc(d, cb) whose callback requests NewTimer(d2) on
 // the same wheel and waits for it. Output, per request: the virtual instant(s) at which
 // the timer became ready / the callback ran, relative to t0, or "panic".
+// after a hang the stuck wheel's ticker keeps producing clock jumps at its own (possibly tiny) step,
+// which would make every later case of this process crawl: they are skipped and re-run by the check in
+// a fresh process
+var c03fHung bool
+
 func init() {
 	register("c03f", func(toks []string) string {
+		if c03fHung {
+			return "SKIPPED-AFTER-HANG"
+		}
 		m := map[string]string{}
 		for _, t := range toks[1:] {
 			if i := strings.IndexByte(t, '='); i >= 0 {
@@ -106,6 +114,7 @@ func init() {
 		select {
 		case <-fin:
 		case <-time.After(2*horizon + 100*step): // all fire instants lie within r + 2 revolutions; a short virtual watchdog keeps a stopped wheel from being ticked through an hour of tiny steps
+			c03fHung = true
 			w.Close()
 			return "HANG " + fmt.Sprint(out)
 		}
